@@ -192,9 +192,11 @@ func runC16(c *Ctx) {
 				}
 			}
 			if be, ok := ast.Unparen(g.E).(*ast.BinaryExpr); ok && g.Truth && be.Op == token.EQL {
-				ls := exprStr(be.X)
-				if strings.HasSuffix(ls, ".RecordingRule.Record.Value") || strings.HasSuffix(ls, ".AlertingRule.Alert.Value") {
-					nameEq = true
+				for _, side := range []ast.Expr{be.X, be.Y} {
+					ls := exprStr(side)
+					if strings.HasSuffix(ls, ".RecordingRule.Record.Value") || strings.HasSuffix(ls, ".AlertingRule.Alert.Value") {
+						nameEq = true
+					}
 				}
 			}
 		}
